@@ -60,6 +60,19 @@ def run(ctx):
         w = rng.choice(_json.WIDTHS + ["W"])
         n = rng.randrange(0, 24)
         items.append((w, _json.units_for_width([rng.choice([0, 34, 92, 117, 85, 123, 125, 91, 93, 44, 58, 48, 49, 45, 46, 101, 116, 110, 102, 32, 10, 0xD800, 0xDC00, 0xFFFF, 0x10FFFF, rng.randrange(0, 256), rng.randrange(0, 0x110000)]) for _ in range(n)], w)))
+    # long whitespace runs at every alignment (vector-block boundaries in SIMD builds)
+    ws_items = []
+    for d in _json.gen_docs(ctx, N // 2):
+        w = rng.choice(_json.WIDTHS + ["W"])
+        u = _json.inject_ws(rng, jsongen.render(d, rng, _json.WNUM[w], spaces=False))
+        ws_items.append((w, u))
+        if rng.random() < 0.3:
+            ws_items.append((w, u[:rng.randrange(len(u) + 1)]))
+    for n in range(0, 70):
+        ws_items.append(("1", [91, 49, 44] + [32] * n + [50, 93]))
+        ws_items.append(("1", [91, 49, 44, 50, 93] + [32] * n))
+        ws_items.append(("2", [32] * n + [123, 34, 97, 34] + [32] * (70 - n) + [58, 49, 125]))
+    items += ws_items
     # nesting the model also runs (<= 600 levels)
     for depth in (1, 2, 64, 512, 600):
         items.append(("1", [91] * depth + [93] * depth))
@@ -67,6 +80,8 @@ def run(ctx):
         items.append(("2", ([123, 34, 97, 34, 58] * depth) + [49] + [125] * depth))
     lines = _json.parse_lines(items)
     impl, model = _json.run_both(ctx, drv, h, lines, "any-input")
+    simd_lines = _json.parse_lines(ws_items) + [lines[i] for i in range(0, len(lines), 7)]
+    _json.simd_builds(ctx, h, simd_lines)
     for l, a in zip(lines, impl):
         if a.startswith("FAULT") or a == "U":
             continue
@@ -90,5 +105,5 @@ def run(ctx):
 
 
 FINISH = dict(level="proof",
-              rule="all strings of length <= 4 (quick) / 5 (thorough) over the structural alphabet [ ] { } \" \\ , : t 1 space u NUL; generated RFC documents, all prefixes of a third of them, 1-3 byte mutations, fragment soups, random units; widths 1/2/4/wchar_t; nesting up to 600 in both sides, deeper on the real code only; non-trivial = distinct input longer than 2 units",
+              rule="all strings of length <= 4 (quick) / 5 (thorough) over the structural alphabet [ ] { } \" \\ , : t 1 space u NUL; generated RFC documents, all prefixes of a third of them, 1-3 byte mutations, fragment soups, random units; widths 1/2/4/wchar_t; whitespace runs of 0..70 units at every structural position and after the document, also through SSE2 and AVX2 builds of the harness (compared with the scalar build); nesting up to 600 in both sides, deeper on the real code only; non-trivial = distinct input longer than 2 units",
               checker_cmd="cd lean && lake build Qentem.Props.C05 && lake env lean <#print axioms>")
